@@ -11,7 +11,10 @@
 (*   "enc_len":n,"eq_full":b,"eq_short":b,"pre_eq":b,                      *)
 (*   "ntx":n,"ranks":[..],"round0":b,"refs":b,"sig":b,"topo0":b,           *)
 (*   "rt_eq":b}                          decoded = the structure encoded   *)
-(*  {"ev":"Pair","idx":n,"shape":..,"f":field,"res":"ok"|"panic",          *)
+(*  {"ev":"Pair","idx":n,"shape":..,"f":field,"mode":"fresh"|"stale"|       *)
+(*   "inplace" (stale/inplace: the Hash field of the struct was set to its *)
+(*   PayloadHash before field f was changed on a copy / in place; f =      *)
+(*   "hashfield": only the Hash field differs),"res":"ok"|"panic",         *)
 (*   "hash_eq":b,"payload_eq":b}   PayloadHash of a snapshot and of the    *)
 (*                                  same snapshot with field f changed     *)
 (*                                                                         *)
@@ -52,8 +55,9 @@ DecMonitor(e) ==
 
 PairMonitor(e) ==
     /\ e.res = "ok"
-    /\ (e.f \in PayloadFields => ~e.hash_eq /\ ~e.payload_eq)
-    /\ (e.f \in AuthFields => e.hash_eq /\ e.payload_eq)
+    /\ (e.f \notin AuthFields \cup {"hashfield"} => e.f \in PayloadFields /\ ~e.hash_eq /\ ~e.payload_eq)
+    \* never with the signature, the local topology or the remembered Hash field of the struct
+    /\ (e.f \in AuthFields \cup {"hashfield"} => e.hash_eq /\ e.payload_eq)
 
 (* --------------------------- full conformance ---------------------------- *)
 DecFullP(e, t, bt, p) ==
